@@ -5,12 +5,17 @@
    results as in C01 (stored_ok; in particular a no-data workbook).
      be_op W o     o is Evaluate n or Build n with n a node of W (no writes)
      tuple_at v i j   element j of row i of a tuple of tuples
-   Unbounded ranges clipped to the used area, address lists/tuples/generators
-   and sheet-less addresses are not modelled: oracle only. *)
+   Address lists/tuples/generators: Model/C05List.v evaluate_list (C05_list_path,
+   C05_same_members, C05_permutation); the reference node of an unbounded
+   range: C05_unbounded_path.  How S!B:B is clipped to the used area (which
+   bounded range the reference node stands for) and the resolution of a
+   sheet-less address against the active sheet are not modelled: oracle only. *)
 From Coq Require Import List.
 From PV Require Import Lib.Py Model.Graph Model.GraphExpr.
 From PV Require Import Proofs.C01Base Proofs.C01Inv Proofs.C01 Proofs.C05.
 From PV Require Import Proofs.C01Weak Proofs.C05Weak Proofs.C05WeakMore.
+From Coq Require Import Permutation.
+From PV Require Import Model.C05List Proofs.C01Alias Proofs.C05List.
 Import ListNotations.
 
 (* after ANY two histories of Build/Evaluate operations, in any order,
@@ -101,3 +106,195 @@ Theorem C05_path_weak : forall W sem, wf W -> sem_nonblank_weak W sem -> stored_
        = snd (evaluate W sem (fst (evaluate W sem s r)) cell).
 Proof. exact path_weak. Qed.
 Print Assumptions C05_path_weak.
+
+(* ---- address lists, permutations, whole-state idempotence, unbounded
+   references (Proofs/C05List.v).  All under the WEAK non-blank condition, which
+   the strong one implies (C01Weak.nonblank_weaken), so they hold for both kinds
+   of workbook.
+     evaluate_list W sem s l   Model/C05List.v: evaluate on a list/tuple/generator
+                               of addresses = left-to-right fold of evaluate
+     ltN W l                   every member of l is a node of W
+     settled W s               every built formula/range node of s holds a value
+                               (C05_settled: true of init W, kept by address lists;
+                               NOT a hypothesis of the theorems below, which start
+                               from any state of the invariant) *)
+
+(* evaluate(list) returns at EVERY position what evaluate of that address alone
+   returns from the same state, whatever the other members and their order *)
+Theorem C05_list_path : forall W sem, wf W -> sem_nonblank_weak W sem -> stored_ok W sem ->
+  forall s l, Inv W sem s -> ltN W l ->
+    snd (evaluate_list W sem s l) = map (fun a => snd (evaluate W sem s a)) l
+    /\ forall i, i < length l ->
+         nth i (snd (evaluate_list W sem s l)) VNone = snd (evaluate W sem s (nth i l 0)).
+Proof. exact list_path_weak. Qed.
+Print Assumptions C05_list_path.
+
+(* two address lists with the same members (any order, any repetitions): the
+   FINAL MACHINE STATES are equal (cell map and every cache entry), every later
+   evaluate agrees, and equal addresses got equal values at whatever positions *)
+Theorem C05_same_members : forall W sem, wf W -> sem_nonblank_weak W sem -> stored_ok W sem ->
+  forall s l1 l2, Inv W sem s -> ltN W l1 -> ltN W l2 ->
+    (forall n, In n l1 <-> In n l2) ->
+    (forall m, st_built (fst (evaluate_list W sem s l1)) m
+               = st_built (fst (evaluate_list W sem s l2)) m
+               /\ st_cache (fst (evaluate_list W sem s l1)) m
+                  = st_cache (fst (evaluate_list W sem s l2)) m)
+    /\ (forall c, c < wb_n W -> snd (evaluate W sem (fst (evaluate_list W sem s l1)) c)
+                                = snd (evaluate W sem (fst (evaluate_list W sem s l2)) c))
+    /\ (forall i1 i2, i1 < length l1 -> i2 < length l2 -> nth i1 l1 0 = nth i2 l2 0 ->
+          nth i1 (snd (evaluate_list W sem s l1)) VNone
+          = nth i2 (snd (evaluate_list W sem s l2)) VNone).
+Proof. exact same_members_weak. Qed.
+Print Assumptions C05_same_members.
+
+(* two permutations of one address list: the (address, value) pairs returned are
+   a permutation of each other, reading any cell afterwards gives the same
+   value, and the final machine states are equal *)
+Theorem C05_permutation : forall W sem, wf W -> sem_nonblank_weak W sem -> stored_ok W sem ->
+  forall s l1 l2, Inv W sem s -> ltN W l1 -> Permutation l1 l2 ->
+    Permutation (combine l1 (snd (evaluate_list W sem s l1)))
+                (combine l2 (snd (evaluate_list W sem s l2)))
+    /\ (forall c, c < wb_n W -> snd (evaluate W sem (fst (evaluate_list W sem s l1)) c)
+                                = snd (evaluate W sem (fst (evaluate_list W sem s l2)) c))
+    /\ (forall m, st_built (fst (evaluate_list W sem s l1)) m
+                  = st_built (fst (evaluate_list W sem s l2)) m
+                  /\ st_cache (fst (evaluate_list W sem s l1)) m
+                     = st_cache (fst (evaluate_list W sem s l2)) m).
+Proof. exact permutation_weak. Qed.
+Print Assumptions C05_permutation.
+
+(* after ANY Build/Evaluate history in which n was evaluated at some point,
+   evaluate of n or of any ancestor m of n returns the cached value and leaves
+   the whole machine state (cell map, every cache entry) as it is *)
+Theorem C05_idempotent_state : forall W sem, wf W -> sem_nonblank_weak W sem -> stored_ok W sem ->
+  forall s h n m, Inv W sem s -> Forall (be_op W) h -> In (Evaluate n) h ->
+    (m = n \/ anc W m n) ->
+    st_built (fst (evaluate W sem (fst (run W sem s h)) m)) = st_built (fst (run W sem s h))
+    /\ (forall k, st_cache (fst (evaluate W sem (fst (run W sem s h)) m)) k
+                  = st_cache (fst (run W sem s h)) k)
+    /\ snd (evaluate W sem (fst (run W sem s h)) m) = st_cache (fst (run W sem s h)) m.
+Proof. exact idempotent_state_weak. Qed.
+Print Assumptions C05_idempotent_state.
+
+(* r = the reference node of an unbounded range (S!B:B), p = the bounded range
+   node it stands for (S!B1:B4, cols columns): evaluate(r) is evaluate(p), and
+   its element (i, j) is what evaluate returns for the member cell at that
+   position, asked before or after the reference *)
+Theorem C05_unbounded_path : forall W sem, wf W -> sem_nonblank_weak W sem -> stored_ok W sem ->
+  forall s r p cols i j, Inv W sem s -> alias_node W sem r p -> p < wb_n W ->
+    (forall vals, sem p vals = sem_formula (FRange cols) vals) ->
+    0 < cols -> j < cols -> i * cols + j < length (wb_deps W p) ->
+    snd (evaluate W sem s r) = snd (evaluate W sem s p)
+    /\ tuple_at (snd (evaluate W sem s r)) i j
+       = snd (evaluate W sem s (nth (i * cols + j) (wb_deps W p) 0))
+    /\ tuple_at (snd (evaluate W sem s r)) i j
+       = snd (evaluate W sem (fst (evaluate W sem s r)) (nth (i * cols + j) (wb_deps W p) 0)).
+Proof. exact unbounded_path_weak. Qed.
+Print Assumptions C05_unbounded_path.
+
+(* the list form IS the history "Evaluate a1; ...; Evaluate ak" of C05_order (no
+   hypotheses): the order theorems above apply to address lists as they are *)
+Theorem C05_list_is_history : forall W sem l s,
+  evaluate_list W sem s l = run W sem s (map Evaluate l).
+Proof. exact evaluate_list_run. Qed.
+Print Assumptions C05_list_is_history.
+
+(* after ANY two Build/Evaluate histories (not only permutations of each other)
+   the two final caches agree on every input cell and on every cell that holds
+   a value in both: that value is the from-scratch value *)
+Theorem C05_states_agree : forall W sem, wf W -> sem_nonblank_weak W sem -> stored_ok W sem ->
+  forall s h1 h2 m, Inv W sem s -> Forall (be_op W) h1 -> Forall (be_op W) h2 -> m < wb_n W ->
+    (wb_input W m = true \/ (st_cache (fst (run W sem s h1)) m <> VNone
+                             /\ st_cache (fst (run W sem s h2)) m <> VNone)) ->
+    st_cache (fst (run W sem s h1)) m = st_cache (fst (run W sem s h2)) m
+    /\ st_cache (fst (run W sem s h1)) m = spec W sem (st_cache s) m.
+Proof. exact states_agree_weak. Qed.
+Print Assumptions C05_states_agree.
+
+(* as long as cells enter the model through evaluate only (no Build), every
+   cell of the cell map holds a value: true at the start and after every address
+   list; the invariant itself is kept too *)
+Theorem C05_settled : forall W sem, wf W -> sem_nonblank_weak W sem -> stored_ok W sem ->
+  settled W (init W) /\ Inv W sem (init W)
+  /\ forall s l, Inv W sem s -> settled W s -> ltN W l ->
+       settled W (fst (evaluate_list W sem s l)) /\ Inv W sem (fst (evaluate_list W sem s l)).
+Proof. exact settled_weak. Qed.
+Print Assumptions C05_settled.
+
+(* evaluating the same address list a second time returns the same values and
+   leaves the machine state (cell map, every cache entry) unchanged *)
+Theorem C05_list_repeat : forall W sem, wf W -> sem_nonblank_weak W sem -> stored_ok W sem ->
+  forall s l, Inv W sem s -> ltN W l ->
+    snd (evaluate_list W sem (fst (evaluate_list W sem s l)) l) = snd (evaluate_list W sem s l)
+    /\ forall m, st_built (fst (evaluate_list W sem (fst (evaluate_list W sem s l)) l)) m
+                 = st_built (fst (evaluate_list W sem s l)) m
+              /\ st_cache (fst (evaluate_list W sem (fst (evaluate_list W sem s l)) l)) m
+                 = st_cache (fst (evaluate_list W sem s l)) m.
+Proof. exact list_repeat_weak. Qed.
+Print Assumptions C05_list_repeat.
+
+(* ANY two histories made of the same Build/Evaluate operations — in particular
+   two permutations of one history, with or without repetitions; Build = the
+   cell is compiled into the model without being evaluated — end in EQUAL
+   machine states: the same cell map and the same cache entry for every node
+   (so the order of first evaluation AND of compilation is invisible afterwards) *)
+Theorem C05_history_order : forall W sem, wf W -> sem_nonblank_weak W sem -> stored_ok W sem ->
+  forall s h1 h2, Inv W sem s -> Forall (be_op W) h1 -> Forall (be_op W) h2 ->
+    (forall o, In o h1 <-> In o h2) ->
+    forall m, st_built (fst (run W sem s h1)) m = st_built (fst (run W sem s h2)) m
+              /\ st_cache (fst (run W sem s h1)) m = st_cache (fst (run W sem s h2)) m.
+Proof. exact history_order_weak. Qed.
+Print Assumptions C05_history_order.
+
+(* the value an operation returns does not depend on its position in the
+   history: it is what the operation returns when it is the first one (evaluate:
+   the from-scratch value; Build returns nothing).  For two permutations of one
+   history the (operation, value) pairs are a permutation of each other. *)
+Theorem C05_history_values : forall W sem, wf W -> sem_nonblank_weak W sem -> stored_ok W sem ->
+  forall s h, Inv W sem s -> Forall (be_op W) h ->
+    snd (run W sem s h) = map (fun o => snd (step W sem s o)) h.
+Proof. exact history_values_weak. Qed.
+Print Assumptions C05_history_values.
+
+Theorem C05_history_values_perm : forall W sem, wf W -> sem_nonblank_weak W sem -> stored_ok W sem ->
+  forall s h1 h2, Inv W sem s -> Forall (be_op W) h1 -> Permutation h1 h2 ->
+    Permutation (combine h1 (snd (run W sem s h1))) (combine h2 (snd (run W sem s h2))).
+Proof. exact history_values_perm_weak. Qed.
+Print Assumptions C05_history_values_perm.
+
+(* the same cell reached through ANY two range nodes that contain it (at
+   positions (i1, j1) and (i2, j2)), the second asked after any Build/Evaluate
+   history: the same element *)
+Theorem C05_path_any_range : forall W sem, wf W -> sem_nonblank_weak W sem -> stored_ok W sem ->
+  forall s h r1 cols1 i1 j1 r2 cols2 i2 j2,
+    Inv W sem s -> Forall (be_op W) h ->
+    r1 < wb_n W -> wb_input W r1 = false ->
+    (forall vals, sem r1 vals = sem_formula (FRange cols1) vals) ->
+    0 < cols1 -> j1 < cols1 -> i1 * cols1 + j1 < length (wb_deps W r1) ->
+    r2 < wb_n W -> wb_input W r2 = false ->
+    (forall vals, sem r2 vals = sem_formula (FRange cols2) vals) ->
+    0 < cols2 -> j2 < cols2 -> i2 * cols2 + j2 < length (wb_deps W r2) ->
+    nth (i1 * cols1 + j1) (wb_deps W r1) 0 = nth (i2 * cols2 + j2) (wb_deps W r2) 0 ->
+    tuple_at (snd (evaluate W sem s r1)) i1 j1
+    = tuple_at (snd (evaluate W sem (fst (run W sem s h)) r2)) i2 j2.
+Proof. exact path_any_range_weak. Qed.
+Print Assumptions C05_path_any_range.
+
+(* a cell reached through the reference node r of an unbounded range (S!B:B,
+   standing for the range node p) and through ANY range node r2 that contains
+   it, one of them asked after any Build/Evaluate history: the same element *)
+Theorem C05_unbounded_any_range : forall W sem, wf W -> sem_nonblank_weak W sem -> stored_ok W sem ->
+  forall s h r p cols1 i1 j1 r2 cols2 i2 j2,
+    Inv W sem s -> Forall (be_op W) h -> alias_node W sem r p -> p < wb_n W ->
+    (forall vals, sem p vals = sem_formula (FRange cols1) vals) ->
+    0 < cols1 -> j1 < cols1 -> i1 * cols1 + j1 < length (wb_deps W p) ->
+    r2 < wb_n W -> wb_input W r2 = false ->
+    (forall vals, sem r2 vals = sem_formula (FRange cols2) vals) ->
+    0 < cols2 -> j2 < cols2 -> i2 * cols2 + j2 < length (wb_deps W r2) ->
+    nth (i1 * cols1 + j1) (wb_deps W p) 0 = nth (i2 * cols2 + j2) (wb_deps W r2) 0 ->
+    tuple_at (snd (evaluate W sem s r)) i1 j1
+    = tuple_at (snd (evaluate W sem (fst (run W sem s h)) r2)) i2 j2
+    /\ tuple_at (snd (evaluate W sem (fst (run W sem s h)) r)) i1 j1
+       = tuple_at (snd (evaluate W sem s r2)) i2 j2.
+Proof. exact unbounded_any_range_weak. Qed.
+Print Assumptions C05_unbounded_any_range.
